@@ -766,6 +766,7 @@ func runC09(c *Ctx) {
 	r.Floor("pool-type", np, 30, "sync.Pool instances")
 	nrel, _ := useAfterReleaseRule(c, p, p.ModuleFuncs(), "use-after-release", false)
 	r.Floor("use-after-release", nrel, 50, "release sites")
+	c09ResultOwned(c, p)
 	if c.Controls {
 		if cp := c.Control("c09"); cp != nil {
 			sub := *c
